@@ -315,6 +315,9 @@ fn run_session(cred: &Cred, lines: &[(String, Option<Option<String>>)], secondar
                 distinct.push(format!("{}/{}/allowed", cred_class, inner_word));
                 if is_credential_error(&reply.resp) {
                     problem = Some("permitted-command-refused");
+                } else if matches!(cur_cred, Cred::User(_)) && ["set", "set-safe", "increment", "remove"].contains(&word.as_str()) && (repl_msgs.len() > 1 || to_primary.len() > 1) {
+                    // one permitted write of a user is one change: one record for the operation log, one message for the primary
+                    problem = Some("permitted-command-acted-more-than-once");
                 }
             }
             None => {
